@@ -4,14 +4,15 @@
 //
 // check 1001  edit history:
 //	schema  x<b0>  n<nops>  { op }
-//	op := n<kind 1 set|2 unset|3 setmany> path [x<sub bytes>] | n3 n<#> { n<field id> x<sub bytes> }
+//	op := n<kind 1 set|2 unset|3 setmany> path [x<sub bytes> n<kind of the sub NODE>] | n3 n<#> { n<field id> x<sub bytes> }
 //	      n<err 0 ok|1 error|2 panic> n<exist> x<result bytes> n<reference accepted 0|1>
 //	      x<the ORIGINAL input slice now> x<Raw() of a second root value made over the input before the edits, now>
 //	      x<the slice Raw() returned BEFORE this op, now>      (buffers handed out earlier are immutable values)
 //	path := n<#steps> { n1 n<id> | n2 x<name> | n3 n<index> | n4 x<str key> | n5 n<int key (Go int)> }
-// check 1002  x<b0> n<recurse> n<err> x<marshalled> n<reference accepted>
+// check 1002  x<b0> n<recurse> n<err> x<marshalled> n<reference accepted> x<earlier Marshal results NOW> x<the same results when they were returned>
 // check 1003  tree REUSE: schema x<bA> x<bB> n<recurse A> n<recurse B> n<mode 0 same PathNode|1 pooled node|2 A,B,A on one node>
-//             n<err> x<marshalled after the LAST load> n<reference accepted>; the last message loaded is bB (mode 2: bA)
+//             n<err> x<marshalled after the LAST load> n<reference accepted> x<earlier Marshal results NOW> x<... when returned>;
+//             the last message loaded is bB (mode 2: bA)
 //
 // The harness never decides what is expected: the next path is chosen from what the REFERENCE decoder reports for the
 // current bytes; the Gallina side decodes every buffer itself.
@@ -372,6 +373,107 @@ func c10ErrClass(ok bool, err error) int {
 	return 0
 }
 
+// Marshal results are values: a result handed out earlier must not change when Marshal is called again (retention).
+// The last few results are kept as returned (the very slices) together with private copies.
+type c10Kept struct{ alias, copy []byte }
+
+var c10Retained []c10Kept
+
+func c10Keep(b []byte) {
+	if b == nil {
+		return
+	}
+	c10Retained = append(c10Retained, c10Kept{alias: b, copy: append([]byte(nil), b...)})
+	if len(c10Retained) > 4 {
+		c10Retained = c10Retained[1:]
+	}
+}
+
+// (what the retained slices hold now, what they held when they were returned), all but the most recent result
+func c10RetainedFields() (string, string) {
+	var now, then []byte
+	for i := 0; i+1 < len(c10Retained); i++ {
+		now = append(now, c10Retained[i].alias...)
+		then = append(then, c10Retained[i].copy...)
+	}
+	return fx(now), fx(then)
+}
+
+// an ill-typed node for an EXISTING element of kind k: another scalar kind, mostly of the same wire class
+func (g *c10Gen) wrongKind(k int) int {
+	classes := [][]int{{3, 4, 5, 13, 17, 18, 8}, {1, 6, 16}, {2, 7, 15}, {9, 12}}
+	r := g.r
+	if r.chance(70) {
+		for _, cl := range classes {
+			in := false
+			for _, x := range cl {
+				if x == k || (k == 14 && x == 5) {
+					in = true
+				}
+			}
+			if in {
+				for try := 0; try < 8; try++ {
+					o := cl[r.intn(len(cl))]
+					if o != k {
+						return o
+					}
+				}
+			}
+		}
+	}
+	for {
+		o := pgScalarKinds[r.intn(len(pgScalarKinds))]
+		if o != k {
+			return o
+		}
+	}
+}
+
+// the value the path addresses in cur (as the reference reports it), nil when it is gone
+func c10Lookup(c *pgCompiled, cur *pgVal, root string, steps []c10Step) *pgVal {
+	v := cur
+	m := c.S.msg(root)
+	var f *pgField
+	for _, st := range steps {
+		if v == nil {
+			return nil
+		}
+		switch st.T {
+		case 1, 2:
+			if v.Tag != 1 || m == nil {
+				return nil
+			}
+			var nv *pgVal
+			for _, fv := range v.Fields {
+				if (st.T == 1 && int64(fv.F.Num) == st.N) || (st.T == 2 && fv.F.Name == string(st.B)) {
+					nv, f = fv.V, fv.F
+				}
+			}
+			v = nv
+			if f != nil && f.Kind == pgKMessage {
+				m = c.S.msg(f.MsgName)
+			}
+		case 3:
+			if v.Tag != 4 || st.N < 0 || int(st.N) >= len(v.Elems) {
+				return nil
+			}
+			v = v.Elems[st.N]
+		default:
+			if v.Tag != 5 {
+				return nil
+			}
+			var nv *pgVal
+			for _, e := range v.Entries {
+				if (st.T == 4 && e.K.Tag == 3 && string(e.K.B) == string(st.B)) || (st.T == 5 && e.K.Tag == 2 && c10GoInt(e.K) == st.N) {
+					nv = e.V
+				}
+			}
+			v = nv
+		}
+	}
+	return v
+}
+
 func genC10(r *rng, n int) {
 	nh := n / 8
 	if nh < 6 {
@@ -407,12 +509,14 @@ func genC10(r *rng, n int) {
 			})
 			acc := 0
 			if ok && lerr == nil {
+				c10Keep(outb)
 				if _, e := c.dumpRef(outb, s.Root); e == nil {
 					acc = 1
 				}
 			}
+			rnow, rthen := c10RetainedFields()
 			fl := append([]string{}, schemaF...)
-			fl = append(fl, fx(b0), fb(rec), fi(c10ErrClass(ok, lerr)), fx(outb), fi(acc))
+			fl = append(fl, fx(b0), fb(rec), fi(c10ErrClass(ok, lerr)), fx(outb), fi(acc), rnow, rthen)
 			out.emit(1002, fl...)
 		}
 
@@ -448,7 +552,9 @@ func genC10(r *rng, n int) {
 					return
 				}
 				if sr.chance(50) {
-					pn.Marshal(opts)
+					if mo, e := pn.Marshal(opts); e == nil {
+						c10Keep(mo)
+					}
 				}
 				if mode == 1 {
 					generic.FreePathNode(pn)
@@ -462,9 +568,11 @@ func genC10(r *rng, n int) {
 					return
 				}
 				if mode == 2 {
-					if _, lerr = pn.Marshal(opts); lerr != nil {
+					var mo []byte
+					if mo, lerr = pn.Marshal(opts); lerr != nil {
 						return
 					}
+					c10Keep(mo)
 					if lerr = load(pn, b0, recA); lerr != nil {
 						return
 					}
@@ -484,12 +592,14 @@ func genC10(r *rng, n int) {
 			_ = last
 			acc := 0
 			if ok && lerr == nil {
+				c10Keep(outb)
 				if _, e := c.dumpRef(outb, s.Root); e == nil {
 					acc = 1
 				}
 			}
+			rnow, rthen := c10RetainedFields()
 			fl := append([]string{}, schemaF...)
-			fl = append(fl, fx(b0), fx(bB), fb(recA), fb(recB), fi(mode), fi(c10ErrClass(ok, lerr)), fx(outb), fi(acc))
+			fl = append(fl, fx(b0), fx(bB), fb(recA), fb(recB), fi(mode), fi(c10ErrClass(ok, lerr)), fx(outb), fi(acc), rnow, rthen)
 			out.emit(1003, fl...)
 		}
 
@@ -504,9 +614,28 @@ func genC10(r *rng, n int) {
 		nops := 1 + sr.intn(8)
 		var ops []string
 		done := 0
+		var drain []c10Step // container (list / map) that is being emptied element by element
 		for oi := 0; oi < nops; oi++ {
 			kind := 1
+			var forced *c10Target
+			if drain != nil {
+				cv := c10Lookup(c, cur, s.Root, drain)
+				switch {
+				case cv != nil && cv.Tag == 4 && len(cv.Elems) > 0:
+					idx := 0
+					if sr.chance(40) {
+						idx = len(cv.Elems) - 1
+					}
+					forced = &c10Target{path: append(append([]c10Step{}, drain...), c10Step{T: 3, N: int64(idx)}), exist: true}
+				case cv != nil && cv.Tag == 5 && len(cv.Entries) > 0:
+					forced = &c10Target{path: append(append([]c10Step{}, drain...), g.keyStep(cv.Entries[0].K)), exist: true}
+				default:
+					drain = nil
+				}
+			}
 			switch x := sr.intn(100); {
+			case forced != nil:
+				kind = 2
 			case x < 62:
 				kind = 1
 			case x < 88:
@@ -559,7 +688,7 @@ func genC10(r *rng, n int) {
 			}
 			if kind != 3 {
 				want := 1 + sr.intn(5)
-				var t *c10Target
+				t := forced
 				for try := 0; try < 6 && t == nil; try++ {
 					t = g.walk(cur, s.Root, want)
 					if t != nil && kind == 1 && t.whole && t.f.Label != pgSingular {
@@ -574,10 +703,25 @@ func genC10(r *rng, n int) {
 				opf = append(opf, pf...)
 				if kind == 1 {
 					nd, nb := g.subValue(t.f, t.depth, t.old)
-					opf = append(opf, fx(nb))
+					nk := t.f.Kind
+					if t.exist && t.old != nil && t.f.Kind != pgKMessage && sr.chance(12) {
+						// an ill-typed node on an existing value: must be refused, the buffer unchanged
+						nk = g.wrongKind(t.f.Kind)
+						wf := *t.f
+						wf.Kind = nk
+						nd, nb = g.subValue(&wf, t.depth, nil)
+					}
+					opf = append(opf, fx(nb), fi(nk))
 					ok, _ = noPanic(func() { ex, oerr = v.SetByPath(nd, ps...) })
 				} else {
 					ok, _ = noPanic(func() { oerr = v.UnsetByPath(ps...) })
+					// often go on removing the elements of the same list / map until it is gone (drop-to-empty at any depth)
+					if n := len(t.path); drain == nil && n >= 2 && t.path[n-1].T >= 3 && sr.chance(65) {
+						drain = append([]c10Step{}, t.path[:n-1]...)
+						if nops < oi+8 {
+							nops = oi + 8
+						}
+					}
 				}
 			}
 			var res []byte
